@@ -24,7 +24,7 @@ PROP = dict(
         quick="grid: all instantiations the tree accepts (116 binary+compound forms incl. arr_real {+,-,/} std::complex<double>) x lengths 0..64, 1000 and the BIG sizes "
               "5000 (>4096) and 70000 (>65536) (all scalar values at lengths 0-3,5,8,16,33,64,1000, two per other length); unary -/+ bit-exact at all these lengths + "
               "extended alphabet; 106 sibling forms + 20 std::complex==cmplx_t equivalence forms x 7/49-letter extended alphabet; mismatches 0..8^2; copy/move n<=16, 5000, 70000; "
-              "aliasing a op= a / a op a at all lengths, a |= a at n<=64, 5000, 70000; concat 2..5 parts x lengths 0..3; BIG concatenation shapes (5000,3) (3,5000) (70000,70000) "
+              "aliasing a op= a / a op a at all lengths, a |= a at n<=64, 5000, 70000; scalar operand = element of the same array (alias.elem: a op= a[k], a op a[k], a[k] op a, complex a op= a[k].re, a.slice = a[k]; k first/middle/last, n in 1,2,5,64; expected uses a[k] before the statement); concat 2..5 parts x lengths 0..3; BIG concatenation shapes (5000,3) (3,5000) (70000,70000) "
               "(0,70000,1,5000,2) (4096,4097,65535,65537) (200000,1) through concatenate, |, |=, zeropad, and mixed real|complex (70000,5000); zeropad 9x13; masks n<=8 and 8 mask "
               "patterns on n=5000, 70000, 200000; index lists len 1..3, n<=5 and 5 index-list shapes (reversed, stride permutation, 70001 repeats, single, every 4097th) on "
               "n=5000, 70000, 200000; trees depth<=2 (20.8k); chains depth<=5 (5.7M programs); aliasing statement programs (21 statement kinds on one array variable) depth<=4 "
